@@ -211,15 +211,6 @@ Proof.
       rewrite IH by (cbn [length] in *; lia). unfold chg. reflexivity.
 Qed.
 
-Lemma zrange_S t n : zrange t (S n) = t :: zrange (t + 1) n.
-Proof. reflexivity. Qed.
-
-Lemma zrange_in : forall n t x, In x (zrange t n) -> t <= x < t + Z.of_nat n.
-Proof.
-  induction n as [|n IH]; intros t x Hin; [contradiction|].
-  destruct Hin as [<-|Hin]; [lia|]. apply IH in Hin. lia.
-Qed.
-
 Lemma znth_cons d (x : Z) l k : 0 < k -> znth d (x :: l) k = znth d l (k - 1).
 Proof.
   intro Hk. unfold znth. destruct (Z.ltb_spec k 0); [lia|]. destruct (Z.ltb_spec (k - 1) 0); [lia|].
